@@ -30,6 +30,8 @@ pub struct World {
     /// raw frames received per host during the current op
     pub frames: Vec<(String, Vec<u8>)>,
     pub aborted_ops: usize,
+    /// reply payloads served instead of asking the Lean broker (table extraction, hostile replies)
+    pub canned: VecDeque<Vec<u8>>,
 }
 
 pub type Shared = Rc<RefCell<World>>;
@@ -62,6 +64,11 @@ impl MemStream {
                 return Err(io::Error::new(io::ErrorKind::Other, "watchdog: too many requests in one operation"));
             }
             w.frames.push((self.host.clone(), frame.clone()));
+            if let Some(payload) = w.canned.pop_front() {
+                self.rbuf.extend((payload.len() as i32).to_be_bytes());
+                self.rbuf.extend(payload);
+                continue;
+            }
             let r = w.lean.req(&self.host, &frame);
             if let Some(p) = r.strip_prefix("RESP ") {
                 let payload = unhex(p);
@@ -178,6 +185,7 @@ pub fn new_world() -> Shared {
         reqs_this_op: 0,
         frames: Vec::new(),
         aborted_ops: 0,
+        canned: VecDeque::new(),
     }));
     install(&w);
     w
